@@ -47,7 +47,8 @@ def strategy_(draw, tier):
   return {
       'recipe': recipe, 'F': draw(st.sampled_from(_FS)), 'match_subclasses': draw(st.booleans()),
       'bt': draw(st.sampled_from(['Buildable', 'Buildable', 'Config', 'Partial'])),
-      'op': draw(st.sampled_from(['iter', 'set', 'get', 'replace', 'replace', 'replace_deepcopy', 'tag_iter'])),
+      'op': draw(st.sampled_from(['iter', 'set', 'get', 'replace', 'replace', 'replace_deepcopy', 'tag_iter', 'reuse'])),
+      'reuse_edit': draw(st.sampled_from(['add', 'remove', 'both'])), 'ri': draw(st.integers(0, 30)),
       'v': draw(st.sampled_from(['leaf', 'list', 'config', 'copy_of_match'])),
       'vleaf': draw(leaves.leaf('plain')), 'T': draw(st.sampled_from(['TagA', 'TagB', 'TagC', 'TagX'])),
   }
@@ -139,6 +140,50 @@ def check(case):
     out.add('iteration-modified-config', 'mismatch', '', feat, '')
     return out
   if op == 'iter':
+    return out
+  if op == 'reuse':
+    # the selection is declarative (class docstring): after the configuration changes, the SAME
+    # selection object yields what matches now
+    edited = []
+    if case.get('reuse_edit') in ('remove', 'both'):
+      holders = [(b, k) for b in bs for k, a in b.__arguments__.items()
+                 if isinstance(k, str) and isinstance(a, fdl.Buildable) and id(a) in exp_ids]
+      if holders:
+        b, k = holders[case['ri'] % len(holders)]
+        delattr(b, k)
+        edited.append('remove')
+    if case.get('reuse_edit') in ('add', 'both'):
+      live = uniq_buildables(root)
+      hosts = [b for b in live if b.__fn_or_cls__ in (things.f2, things.Base, things.Mid, things.LeafCls, things.Other)]
+      if hosts:
+        host = hosts[case['ri'] % len(hosts)]
+        newb = (fdl.Partial if case['bt'] == 'Partial' else fdl.Config)(F, x='added-later')
+        host.child = newb
+        edited.append('add')
+    if not edited:
+      return out
+    out.cls('reuse_edited')
+    bs2 = uniq_buildables(root)
+    exp2 = {id(b) for b in bs2 if matches(b)}
+    try:
+      got2 = collections.Counter(id(b) for b in sel)
+    except Exception as e:  # pylint: disable=broad-except
+      out.add('iteration-raises', exc_kind(e), fiddle_frame(e), feat, repr(e)[:300])
+      return out
+    if set(got2) != exp2 or any(c != 1 for c in got2.values()):
+      out.add('reused-selection-stale', 'mismatch', '', 'reuse:' + '+'.join(edited),
+              f'yielded {len(got2)} nodes, {len(exp2)} match now; cfg={root!r}'[:900])
+      return out
+    val = ['set-later']
+    try:
+      sel.set(y=val)
+    except Exception as e:  # pylint: disable=broad-except
+      out.add('set-raises', exc_kind(e), fiddle_frame(e), feat, repr(e)[:300])
+      return out
+    for b in bs2:
+      if (b.__arguments__.get('y') is val) != (id(b) in exp2):
+        out.add('reused-selection-set-wrong-nodes', 'mismatch', '', 'reuse:' + '+'.join(edited), repr(b)[:300])
+        return out
     return out
 
   snap = {id(b): (b, dict(b.__arguments__)) for b in bs}
